@@ -381,6 +381,8 @@ type vX01Obs struct {
 	Acc   []string   `json:"acc"`
 	Rej   []string   `json:"rej"`
 	Asg   [][]interface{} `json:"asg"`
+	Rc    string     `json:"rc"` // Join: the coordinator and epoch the client is told
+	Re    int64      `json:"re"`
 	Crash string     `json:"crash"`
 }
 
@@ -764,9 +766,12 @@ func (r *vX01Run) step(step map[string]interface{}) (ev vX01Event) {
 			srv, m, c0 := vStr(step, "srv"), vStr(step, "m"), vStrDef(step, "c0", "none")
 			args["srv"], args["m"], args["c0"] = srv, m, c0
 			r.prefer(c0, "none")
-			_, err := r.c.srv(srv).api.JoinConsumerGroup(ctx, &client.JoinConsumerGroupRequest{
+			resp, err := r.c.srv(srv).api.JoinConsumerGroup(ctx, &client.JoinConsumerGroupRequest{
 				GroupId: r.gid, ConsumerId: m, Streams: []string{vX01Stream}})
 			obs.Err = vX01ErrClass(err)
+			if err == nil && resp != nil {
+				obs.Rc, obs.Re = resp.Coordinator, int64(resp.Epoch)
+			}
 		case "Leave":
 			srv, m := vStr(step, "srv"), vStr(step, "m")
 			args["srv"], args["m"] = srv, m
